@@ -42,12 +42,12 @@ def p_fixpoint(text):
 
 def run(ctx):
     rng = ctx.rng
-    texts = [G5.render(rng, G5.document(rng)) for _ in range(ctx.n(5000, 60000))]
+    texts = [G5.render(rng, G5.document(rng)) for _ in range(ctx.n(3000, 60000))]
     texts += ['Files: *\nCopyright: x\nLicense: y\nFoo: a\n b\n', 'Format: f\nX-A: a\n b\n .\n  c\n\nFiles: *\nCopyright: 2019 x\nLicense: MIT\n t\n']
     fails = ctx.prop('prop:render-fixpoint', texts, p_fixpoint)
     bad = ctx.compare('corr:copyright', [('copyright_from_text', [t]) for t in texts], _copy.impl)
     second = []
-    for t in texts[:ctx.n(2500, 30000)]:
+    for t in texts[:ctx.n(1200, 30000)]:
         try:
             second.append(dc.DebianCopyright.from_text(t).dumps())
         except Exception:  # noqa
